@@ -464,3 +464,33 @@ theorem classicGo_picks (ls : List (SLink F)) : ∀ (i now : Nat),
         · exact ih _ _ ⟨d, hd, h1, h2, h3, h4⟩
 
 end Srtla.SelLemmas
+
+/-! ## Round 2 (C11): the gate keeps every link in place and does not touch what the in-flight cap reads -/
+namespace Srtla.SelLemmas
+open Srtla.Gen Srtla.Conn Srtla Srtla.Select
+
+variable {F : Type}
+
+/-- Index-wise version of `gate_mem_core`. -/
+theorem gate_getElem?_core {ls : List (SLink F)} {now : Nat} {cfg : Cfg} {i : Nat} {c' : SLink F}
+    (h : (applyStallGate ls now cfg)[i]? = some c') :
+    ∃ c, ls[i]? = some c ∧ core c' = core c ∧ c'.connTimeoutMs = cfg.connTimeoutMs := by
+  cases hd : cfg.stallDeselect
+  · rw [gate_off ls now cfg hd, List.getElem?_map] at h
+    obtain ⟨c, hc, rfl⟩ := Option.map_eq_some_iff.1 h
+    exact ⟨c, hc, rfl, rfl⟩
+  · rw [gate_on ls now cfg hd, List.map_map, List.getElem?_map] at h
+    obtain ⟨c, hc, rfl⟩ := Option.map_eq_some_iff.1 h
+    exact ⟨c, hc, by simp only [Function.comp_apply]; rw [core_setG, core_gstep],
+      by simp only [Function.comp_apply]; exact timeout_gstep now cfg c⟩
+
+theorem capExceeded_of_core [Scalar F] {a b : SLink F} (h : core a = core b) :
+    capExceeded a = capExceeded b := by
+  have h1 := congrArg SLink.ccTarget h
+  have h2 := congrArg SLink.rttMin h
+  have h3 := congrArg SLink.inFlight h
+  simp only [core] at h1 h2 h3
+  unfold capExceeded
+  rw [h1, h2, h3]
+
+end Srtla.SelLemmas
